@@ -381,8 +381,36 @@ def find_calls(t, suffix, acc=None):
     return acc
 
 
+_CS = {}
+
+
+def cursor_verdict(ctx, w, S, R, rule="V11"):
+    """Semantic form of V8-V10: the pure cursor commands evaluated on a 5x5 terminal (hinterp.cursor_semantics)."""
+    k = (id(w), id(ctx), rule)
+    if k in _CS:
+        return _CS[k]
+    from rules import hinterp
+    ctx.rule(rule, "the pure cursor commands (CUU CUD CUF CUB CNL CPL VPR CHA VPA CUP BS CR) evaluated on a 5x5 terminal for margin pairs, origin mode on/off, every start position incl. wrap-pending "
+                   "and parameters 0/1/small/beyond the edge end exactly where the statement prescribes, clear wrap-pending, never touch the buffer and change nothing else")
+    try:
+        ok, info = hinterp.cursor_semantics(w, S, R, full=(getattr(ctx, "tier", "") == "thorough"))
+    except Exception as ex:
+        ctx.note("semantic form of the cursor rules not applicable: %r" % (ex,))
+        _CS[k] = None
+        return None
+    if ok:
+        ctx.ok(rule, "all", {"cases": info})
+        ctx.rule_counts[rule] = info
+    else:
+        hs = w.handler("Cuu")
+        ctx.violation(rule, "cursor", str(info), loc=w.fn_loc(hs[0]) if hs else None)
+    _CS[k] = bool(ok)
+    return _CS[k]
+
+
 def clamp_rules(ctx, w, S, R):
     """V8: vertical relative moves."""
+    ctx = shared.Deferred(ctx, {"V8"}, cursor_verdict(ctx, w, S, R))
     E = w.E
     cur = R["cursor"]
     row_t = ("load", ("arg1", cur, "row"))
@@ -486,6 +514,7 @@ def setters(w, S, R):
 
 
 def addressing_rules(ctx, w, S, R):
+    ctx = shared.Deferred(ctx, {"V9", "V10"}, cursor_verdict(ctx, w, S, R))
     E = w.E
     cur = R["cursor"]
     row_t, rows_t, cols_t = ("load", ("arg1", cur, "row")), ("load", ("arg1", R["rows"])), ("load", ("arg1", R["cols"]))
@@ -590,6 +619,10 @@ def col_bounded(w, S, R, t, gs):
 
 def run(ctx, w):
     _run(ctx, w)
+    # HT / CHT / CBT are relative moves of this property: the tab table they consult must be right (defaults every 8
+    # columns incl. after widening, the n-th stop search, the fallback to the last / first column)
+    from rules import c18
+    shared.embed(ctx, w, c18._run)
     # the commands of this property must first of all be DECODED as specified (selector values, parameter slots, finals)
     from rules import c03
     shared.embed(ctx, w, c03.dispatch_rules)
